@@ -109,6 +109,7 @@ type Node struct {
 	maxSync    *uint64
 	// the worker's two one-slot inboxes (sync, election): filled by the main-loop half of a step, emptied by the worker half
 	pendSync   *pendingSync
+	handSync   *pendingSync // dequeued by the worker, not yet acted upon (the main loop may handle a newer sync meanwhile)
 	pendTrig   *interfaces.ElectionTrigger
 	pendTrigHV [2]uint64
 	FailCommit func(h uint64) bool // commit callback failure injection
@@ -295,11 +296,21 @@ func (w *World) SyncNode(n *Node, b *spi.Blk, proof []byte) {
 
 // WorkerTakeSync is the worker half of a node sync: the worker's select picked the update-state inbox.
 func (w *World) WorkerTakeSync(n *Node) {
-	ps := n.pendSync
-	if ps == nil {
-		return
+	ps := n.handSync
+	if ps != nil {
+		n.handSync = nil
+	} else {
+		ps = n.pendSync
+		if ps == nil {
+			return
+		}
+		n.pendSync = nil
+		if w.SplitHandoff && w.Rng.Intn(3) == 0 {
+			n.handSync = ps // dequeued; acting on it is a later step
+			w.trace("sync-dequeued", n.Id, "", "")
+			return
+		}
 	}
-	n.pendSync = nil
 	var blk interfaces.Block
 	bh := uint64(0)
 	if ps.blk != nil {
@@ -331,13 +342,18 @@ func (w *World) WorkerTakeTrigger(n *Node) {
 func (w *World) DrainPending() {
 	for _, id := range w.Order {
 		n := w.Nodes[id]
+		split := w.SplitHandoff
+		w.SplitHandoff = false
 		if w.Rng.Intn(2) == 0 {
+			w.WorkerTakeSync(n)
 			w.WorkerTakeSync(n)
 			w.WorkerTakeTrigger(n)
 		} else {
 			w.WorkerTakeTrigger(n)
 			w.WorkerTakeSync(n)
+			w.WorkerTakeSync(n)
 		}
+		w.SplitHandoff = split
 	}
 }
 
